@@ -219,6 +219,7 @@ func runCase(c *dcase, r *res.Result) (string, string) {
 	firstReads := map[string]uint32{}
 	var fmu sync.Mutex
 	victim := -1
+	burstIdx := -1 // a remote that sent a burst while its connection was still waiting in the accept queue
 	release := make(chan struct{})
 	var releaseOnce sync.Once
 	defer releaseOnce.Do(func() { close(release) })
@@ -264,7 +265,7 @@ func runCase(c *dcase, r *res.Result) (string, string) {
 		if (c.SlowRead || c.PartRead) && cl.idx == victim {
 			<-release // slow reader: nothing is read until the remote has overfilled the receive buffer / built its backlog
 		}
-		strict := c.PartRead && cl.idx == victim && closeAfter == 0
+		strict := (c.PartRead && cl.idx == victim || cl.idx == burstIdx) && closeAfter == 0
 		buf := make([]byte, 9000)
 		var last uint32
 		reads := 0
@@ -331,7 +332,7 @@ func runCase(c *dcase, r *res.Result) (string, string) {
 				atomic.AddInt64(&outstanding, -int64(n))
 			}
 			r.Count("datagrams_read", 1)
-			if strict && (reads == 60 && !c.RingEnd || reads == 1 && c.RingEnd) {
+			if strict && c.PartRead && cl.idx == victim && (reads == 60 && !c.RingEnd || reads == 1 && c.RingEnd) {
 				read60Once.Do(func() { close(read60) })
 				<-release2
 			}
@@ -380,6 +381,26 @@ func runCase(c *dcase, r *res.Result) (string, string) {
 			if !readLoopIdle() {
 				l.Close()
 				return "", "inconclusive: read loop not idle"
+			}
+		}
+		if c.Backlog >= c.Clients && c.Filter != "skipfirst" && c.Filter != "firstonly" {
+			// nobody accepts yet and every remote is queued: one of them goes on sending - a hundred small datagrams wait
+			// in a connection that has not been accepted; all of them belong to it and must be read from it later
+			for _, cl := range clients {
+				if cl.odd {
+					continue
+				}
+				for k := 0; k < 99; k++ {
+					cl.sent++
+					cl.conn.Write(mk(cl.idx, cl.sent, 12, false))
+				}
+				if !readLoopIdle() {
+					l.Close()
+					return "", "inconclusive: read loop not idle"
+				}
+				burstIdx = cl.idx
+				r.Count("bursts_into_unaccepted_connections", 1)
+				break
 			}
 		}
 		admissible := 0
